@@ -56,3 +56,46 @@ class ScriptedSecrets:
 
     class SystemRandom:  # pragma: no cover - only so attribute access does not crash
         pass
+
+
+# ---------------------------------------------------------------------------------------------------------------------
+# A stub assigned to one module's `secrets` name is invisible to a draw that the library makes through a helper in another
+# of its modules (or through `from secrets import randbelow`).  sync() mirrors the stub - or its removal - onto the
+# standard library's secrets functions and onto every loaded bits module that refers to them, so the script is in force
+# wherever the draw is made.
+
+_FUNCS = ("randbelow", "randbits", "token_bytes", "token_hex", "choice")
+_installed = []  # [(object, attribute, original value)]
+
+
+def _uninstall():
+    while _installed:
+        obj, name, val = _installed.pop()
+        setattr(obj, name, val)
+
+
+def sync(current):
+    """Call right after `<module>.secrets = X`: X a ScriptedSecrets -> script every route to the random source;
+    X the real module (a restore) -> undo."""
+    import secrets as real
+    import sys
+
+    _uninstall()
+    if not isinstance(current, ScriptedSecrets):
+        return
+    originals = {fn: getattr(real, fn) for fn in _FUNCS}
+    for name, mod in list(sys.modules.items()):
+        if mod is None or not (name == "bits" or name.startswith("bits.")):
+            continue
+        for attr, val in list(vars(mod).items()):
+            if val is real:
+                _installed.append((mod, attr, val))
+                setattr(mod, attr, current)
+            else:
+                for fn, orig in originals.items():
+                    if val is orig:
+                        _installed.append((mod, attr, val))
+                        setattr(mod, attr, getattr(current, fn))
+    for fn, orig in originals.items():
+        _installed.append((real, fn, orig))
+        setattr(real, fn, getattr(current, fn))
